@@ -205,6 +205,7 @@ pub struct RunOut {
     pub log_scores: Vec<Option<f64>>,
     pub shadow_final: Vec<Cand>,
     pub shadow_inconsistency: Option<(usize, String)>,
+    pub shadow_steps: Vec<StepRec>,
 }
 
 /// run the real optimiser on a Script governed by `policy`
@@ -219,7 +220,7 @@ pub fn run_script_shadow(cfg: &OptCfg, init: &[f64], bounds: &[(f64, f64)], kt_z
     let brain: SharedBrain = new_brain(model, policy);
     {
         let mut sh = Model::with_mode(kt_zero, shadow_mode);
-        sh.keep_steps = false;
+        sh.keep_steps = true;
         brain.lock().unwrap().shadow = Some(sh);
     }
     let script = Script::new(init, bounds, brain.clone());
@@ -245,23 +246,23 @@ pub fn run_script_shadow(cfg: &OptCfg, init: &[f64], bounds: &[(f64, f64)], kt_z
     };
     let calls_during_run = brain.lock().unwrap_or_else(|e| e.into_inner()).model.calls;
     // candidate final states as implied by the trace (before any further call)
-    let (final_cands, steps, inconsistency, initial, log_scores, shadow_final, shadow_inconsistency) = {
+    let (final_cands, steps, inconsistency, initial, log_scores, shadow_final, shadow_inconsistency, shadow_steps) = {
         let mut b = brain.lock().unwrap_or_else(|e| e.into_inner());
         let fc = b.model.final_candidates();
         b.model.finished = true;
-        let (sf, si) = match b.shadow.as_mut() {
+        let (sf, si, ss) = match b.shadow.as_mut() {
             Some(sh) => {
                 let f = sh.final_candidates();
                 sh.finished = true;
-                (f, sh.inconsistency.clone())
+                (f, sh.inconsistency.clone(), std::mem::take(&mut sh.steps))
             }
-            None => (vec![], None),
+            None => (vec![], None, vec![]),
         };
-        (fc, b.model.steps.clone(), b.model.inconsistency.clone(), b.model.initial.clone(), b.log_scores.clone(), sf, si)
+        (fc, b.model.steps.clone(), b.model.inconsistency.clone(), b.model.initial.clone(), b.log_scores.clone(), sf, si, ss)
     };
     // score of the returned state, asked after the bookkeeping above
     let returned_score = keep.as_ref().map(|s| s.score());
-    RunOut { panicked, returned_params, returned_score, calls_during_run, steps, final_cands, inconsistency, initial, log_scores, shadow_final, shadow_inconsistency }
+    RunOut { panicked, returned_params, returned_score, calls_during_run, steps, final_cands, inconsistency, initial, log_scores, shadow_final, shadow_inconsistency, shadow_steps }
 }
 
 pub fn same_bits(a: &[f64], b: &[f64]) -> bool {
